@@ -312,7 +312,7 @@ Qed.
 Lemma strip_query qo o s q : cell_of s o = Some (CQuery q) -> option_map (strip qo) (cell_of s o) = Some (CQuery q).
 Proof. intros H. rewrite H. reflexivity. Qed.
 
-Lemma strip_sim s s1 qo q q1 : cell_of s qo = Some (CQuery q) -> q_cb q1 = q_cb q ->
+Lemma strip_sim s s1 qo q q1 : cell_of s qo = Some (CQuery q) -> q_cb q1 = q_cb q /\ q_cancelled q1 = q_cancelled q ->
   (forall o, cell_of s1 o = if Nat.eqb o qo then Some (CQuery q1) else option_map (strip qo) (cell_of s o)) ->
   forall o, cell_sim (cell_of s o) (cell_of s1 o).
 Proof.
